@@ -31,6 +31,12 @@ def zone_transitions(z: str) -> List[int]:
     return _trans_cache[z]
 
 
+# (kept in step with tcp_exec.BODY_EXCEPTIONS; listed here so that generating needs no asyncio import)
+BODY_EXCEPTION_KINDS = ["aborted", "base", "cancelled", "connection", "eof", "generatorexit", "key", "keyboard", "memory",
+                        "oserror", "pipe", "plain", "refused", "reset", "runtime", "stopasynciteration", "systemexit",
+                        "timeout", "value"]
+
+
 def gen_epoch_zone(rng: random.Random, zone: str) -> float:
     """An instant 2000..2037 biased to DST transitions, year ends, leap days and local midnights; one in twenty
     lies beyond 2038-01-19 (seconds that no longer fit a signed 32-bit integer), up to 2100."""
@@ -264,10 +270,13 @@ def gen_device(rng, kind: str, idx: int) -> Dict[str, Any]:
     return dev
 
 
-def gen_breeze_state(rng, remote_id: Optional[str] = None) -> Dict[str, Any]:
+def gen_breeze_state(rng, remote_id: Optional[str] = None, wide: bool = True) -> Dict[str, Any]:
+    """What the thermostat reports.  `wide`: any byte as target temperature (C08 speaks about every reply); C16 is
+    stated for current states with targets 16..30, so its strata stay inside that range."""
     rid = remote_id or "".join(rng.choice("ABCDEFGHIJKLMNOPQRSTUVWXYZ0123456789") for _ in range(rng.choice([1, 4, 7, 8, 8, 8])))
     return {"t_on": rng.random() < 0.5, "t_mode": rng.randrange(1, 6),
-            "t_target": rng.choice([rng.randrange(16, 31), rng.randrange(16, 31), 0, 15, 31, 60, 127, 128, 255, rng.randrange(256)]),
+            "t_target": rng.choice([rng.randrange(16, 31), rng.randrange(16, 31), 0, 15, 31, 60, 127, 128, 255, rng.randrange(256)])
+            if wide else rng.randrange(16, 31),
             "t_fan": rng.randrange(4), "t_swing": rng.randrange(2),
             "t_temp10": rng.choice([0, 1, 255, 256, 281, 65535, 61694, 65264, 32767, 32768, rng.randrange(65536)]), "t_remote": rid}
 
@@ -707,7 +716,7 @@ def gen_c16(rng, eof_step: Optional[int] = None) -> Dict[str, Any]:
     devices, clients = make_clients(rng, 1, ["breeze"])
     cl = clients[0]
     cl["irset"] = irsets.gen_irset(rng, special=rng.random() < 0.5, toggle=rng.random() < 0.5)
-    devices[0]["state"] = gen_breeze_state(rng, cl["irset"]["IRSetID"])
+    devices[0]["state"] = gen_breeze_state(rng, cl["irset"]["IRSetID"], wide=False)
     cap = irsets.capabilities(cl["irset"])
     lo_t, hi_t = (cap["min"], cap["max"]) if cap["min"] is not None else (16, 30)
     if rng.random() < 0.85:
@@ -738,7 +747,7 @@ def gen_c16(rng, eof_step: Optional[int] = None) -> Dict[str, Any]:
         if eof_step is not None:
             break
         if rng.random() < 0.3:
-            steps.append({"kind": "mutate", "client": 0, "fields": gen_breeze_state(rng, cl["irset"]["IRSetID"])})
+            steps.append({"kind": "mutate", "client": 0, "fields": gen_breeze_state(rng, cl["irset"]["IRSetID"], wide=False)})
         if rng.random() < 0.3:
             steps.append({"kind": "get_breeze_state", "client": 0, "args": {}})
     steps.append({"kind": "disconnect", "client": 0})
@@ -757,7 +766,7 @@ def gen_c16_systematic(rng, index: int) -> Dict[str, Any]:
     cl = clients[0]
     cl["irset"] = irsets.gen_irset(rng, special=special, toggle=toggle, density=rng.choice([1.0, 1.0, 0.7]))
     cap = irsets.capabilities(cl["irset"])
-    devices[0]["state"] = gen_breeze_state(rng, cl["irset"]["IRSetID"])
+    devices[0]["state"] = gen_breeze_state(rng, cl["irset"]["IRSetID"], wide=False)
     devices[0]["state"]["t_mode"] = rng.choice(cap["modes"])
     cfg["devices"], cfg["clients"] = devices, clients
     a: Dict[str, Any] = {}
@@ -834,7 +843,7 @@ def life_steps(rng, actions, cl) -> List[dict]:
         elif a == "aexit":
             steps.append({"kind": "aexit"})
         elif a == "aexit_exc":
-            steps.append({"kind": "aexit", "exc": True, "exc_kind": rng.choice(["plain", "plain", "cancelled", "keyboard", "base"])})
+            steps.append({"kind": "aexit", "exc": True, "exc_kind": rng.choice(["plain"] + BODY_EXCEPTION_KINDS)})
         elif a == "op_ok":
             k = "get_state" if t1 else ("get_shutter_state" if cl["devkind"] == "runner" else "get_breeze_state")
             steps.append({"kind": rng.choice([k, "control_device"]) if t1 else k,
